@@ -42,6 +42,8 @@ struct Obs {
     /// after the longest possible reaper pass in the mid-pass style), with the observation instant
     ticks: Vec<(u64, BTreeMap<u64, bool>, Vec<(u64, u64, bool)>, u64)>,
     kills: Vec<(u64, u64)>, // (time, session id)
+    /// instants at which the harness called SessionPool::cleanup_expired() itself
+    cleanups: Vec<u64>,
     dials: usize,
     period_us: u64,
 }
@@ -108,11 +110,20 @@ fn gen_pool_plan(g: &mut Gen, sequential_bias: bool) -> Value {
             ops.push(json!({"t_ms": kt, "op": "kill", "which": g.range(0, 3)}));
         }
     }
+    // the pool's public cleanup_expired() (the same pass as the periodic one, callable by the embedding program)
+    // at instants between ticks, preferably around the time the sessions created so far come due
+    if g.chance(35) {
+        for _ in 0..g.range(1, 2) {
+            let cp = if g.chance(60) { period + timeout_mult + g.range(0, 1) } else { g.range(0, period + timeout_mult + 1) };
+            let ct = safe(g, cp * p);
+            ops.push(json!({"t_ms": ct, "op": "cleanup"}));
+        }
+    }
     // an external death keeps clear of every request instant (a session cut while a request is being
     // set up on it makes that request fail legitimately, which the model does not describe) and of ticks
     let req_times: Vec<u64> = ops.iter().filter(|o| o["op"] == "request").map(|o| o["t_ms"].as_u64().unwrap_or(0)).collect();
     for o in ops.iter_mut() {
-        if o["op"] == "kill" {
+        if o["op"] == "kill" || o["op"] == "cleanup" {
             let mut kt = o["t_ms"].as_u64().unwrap_or(0);
             let mut guard = 0;
             while guard < 200 && (req_times.iter().any(|t| kt + 400 > *t && kt < *t + 400) || kt % p < 100 || kt % p > p - 300) {
@@ -189,6 +200,7 @@ async fn run_history(plan: &Value) -> Result<Obs, String> {
     let reqs: Arc<Mutex<Vec<Option<ReqObs>>>> = Arc::new(Mutex::new(vec![None; nreq]));
     let sessions: Arc<Mutex<BTreeMap<u64, Arc<Session>>>> = Arc::new(Mutex::new(BTreeMap::new()));
     let kills: Arc<Mutex<Vec<(u64, u64)>>> = Arc::new(Mutex::new(Vec::new()));
+    let cleanups: Arc<Mutex<Vec<u64>>> = Arc::new(Mutex::new(Vec::new()));
     let mut ri = 0usize;
     for o in ops.iter() {
         let t = o["t_ms"].as_u64().unwrap_or(0);
@@ -225,6 +237,14 @@ async fn run_history(plan: &Value) -> Result<Obs, String> {
                         reqs2.lock().unwrap()[slot] = Some(ReqObs { t_start, t_done, ok: false, sid: 0, closed_at_return: false, hold_until: t_done, delivered: None });
                     }
                 }
+            });
+        } else if o["op"] == "cleanup" {
+            let (c, cl2) = (client.clone(), cleanups.clone());
+            anytls_simnet::spawn(async move {
+                sleep(Duration::from_millis(t)).await;
+                cl2.lock().unwrap().push(now_us());
+                c.verif_pool().cleanup_expired().await;
+                world::probe("pool.manual_cleanup_pass");
             });
         } else {
             let which = o["which"].as_u64().unwrap_or(0) as usize;
@@ -289,7 +309,8 @@ async fn run_history(plan: &Value) -> Result<Obs, String> {
     }
     let reqs = reqs.lock().unwrap().clone();
     let kills = kills.lock().unwrap().clone();
-    Ok(Obs { reqs, ticks, kills, dials: dials_to_server(), period_us })
+    let cleanups = cleanups.lock().unwrap().clone();
+    Ok(Obs { reqs, ticks, kills, cleanups, dials: dials_to_server(), period_us })
 }
 
 async fn echo_ok(se: &Arc<Session>, st: &Arc<Stream>, slot: usize) -> bool {
@@ -316,7 +337,7 @@ async fn echo_ok(se: &Arc<Session>, st: &Arc<Stream>, slot: usize) -> bool {
 /// M1: the pool as implemented. Returns (deviations from M1, per-session reaper close time by M1).
 struct M1Result {
     deviations: Vec<String>,
-    /// session id -> tick index at which M1's reaper closes it
+    /// session id -> instant (us) at which M1's reaper (a periodic or a manual pass) closes it
     reaped: BTreeMap<u64, u64>,
     created: usize,
 }
@@ -337,6 +358,7 @@ fn run_m1(plan: &Value, obs: &Obs) -> M1Result {
         Batch(Vec<usize>),
         Kill(u64),
         Tick(u64),
+        Manual,
         Observe(u64),
     }
     let mut evs: Vec<(u64, u8, Ev)> = Vec::new();
@@ -352,6 +374,9 @@ fn run_m1(plan: &Value, obs: &Obs) -> M1Result {
     }
     for (t, id) in &obs.kills {
         evs.push((*t, 0, Ev::Kill(*id)));
+    }
+    for t in &obs.cleanups {
+        evs.push((*t, 2, Ev::Manual));
     }
     for (k, _, _, t_obs) in &obs.ticks {
         evs.push((k * p, 2, Ev::Tick(*k)));
@@ -420,7 +445,7 @@ fn run_m1(plan: &Value, obs: &Obs) -> M1Result {
                     pending.push((done, id));
                 }
             }
-            Ev::Tick(kidx) => {
+            Ev::Tick(_) | Ev::Manual => {
                 let now = t;
                 let mut to_remove = Vec::new();
                 let mut active = 0usize;
@@ -443,7 +468,7 @@ fn run_m1(plan: &Value, obs: &Obs) -> M1Result {
                     idle.remove(&id);
                     if reap {
                         closed.insert(id);
-                        reaped.insert(id, kidx);
+                        reaped.insert(id, now);
                     }
                 }
             }
@@ -538,6 +563,8 @@ impl Check for C12 {
                     let was = prev.get(id).copied().unwrap_or(false);
                     if *closed && !was && !killed.contains(id) {
                         reaper_hits += 1;
+                        // (a manual pass between two ticks closed it at its own instant)
+                        let t = if j.m1_exact { m1.reaped.get(id).copied().unwrap_or(t) } else { t };
                         if in_use_at(&obs, *id, t) {
                             out.viol("reaper-closed-session-in-use", format!("reaper-closed-session-in-use:{}", tag), format!("tick {} (t={} s): pool housekeeping closed session {} while a stream on it was in use (pool settings: interval {} s, timeout {} s, min idle {})", k, t / 1_000_000, id, plan["interval_s"], plan["timeout_s"], min_idle));
                         }
@@ -581,7 +608,6 @@ impl Check for C12 {
             }
             world::probe_add("c12.reaper_closes_observed", reaper_hits);
             world::probe_add("c12.sessions_created", m1.created as u64);
-            let _ = m1.reaped;
             out.nontrivial = obs.reqs.iter().flatten().filter(|r| r.ok).count() >= 2;
             out.summary = json!({"requests": obs.reqs.len(), "sessions": m1.created, "ticks": obs.ticks.len(), "reaper_closes": reaper_hits, "kills": obs.kills.len(), "matches_pool_model": j.m1_exact});
             out
@@ -593,10 +619,10 @@ impl Check for C12 {
         out
     }
     fn rule(&self) -> &'static str {
-        "one case = a history of 2-9 request groups (single requests or bursts of up to 4 starting at the same instant; strictly sequential, bursty or mixed) whose streams are held for 20 ms .. 4 intervals, optional external session deaths, under pool settings interval {1,5,30} s x idle timeout {2,3,10} intervals x minimum idle {0,1,2,3}, observed after every reaper tick until several timeouts after the last request (real heartbeat running with the same settings); operation instants keep >= 100 ms clear of tick instants, except in the mid-pass style (1 case in 5: 2-4 sessions from a burst, connections whose transport shutdown never completes so that the reaper pass in which they come due lasts 1 s per session, 1-3 requests issued inside that pass, observation after the longest possible pass); step-by-step comparison with an executable model of the pool as implemented + the property clauses judged on the observations; non-trivial = at least two requests succeeded; distinct = distinct (plan hash, poll-order fingerprint)"
+        "one case = a history of 2-9 request groups (single requests or bursts of up to 4 starting at the same instant; strictly sequential, bursty or mixed) whose streams are held for 20 ms .. 4 intervals, optional external session deaths, optional calls of the pool's public cleanup_expired() between ticks (1 case in 3), under pool settings interval {1,5,30} s x idle timeout {2,3,10} intervals x minimum idle {0,1,2,3}, observed after every reaper tick until several timeouts after the last request (real heartbeat running with the same settings); operation instants keep >= 100 ms clear of tick instants, except in the mid-pass style (1 case in 5: 2-4 sessions from a burst, connections whose transport shutdown never completes so that the reaper pass in which they come due lasts 1 s per session, 1-3 requests issued inside that pass, observation after the longest possible pass); step-by-step comparison with an executable model of the pool as implemented + the property clauses judged on the observations; non-trivial = at least two requests succeeded; distinct = distinct (plan hash, poll-order fingerprint)"
     }
     fn real_components(&self) -> Vec<&'static str> {
-        vec!["Client::create_proxy_stream / create_stream / create_new_session", "SessionPool: get_idle_session, add_idle_session, reaper task", "Session heartbeat (same settings)", "Server::listen + TcpProxyHandler, rustls"]
+        vec!["Client::create_proxy_stream / create_stream / create_new_session", "SessionPool: get_idle_session, add_idle_session, reaper task, cleanup_expired", "Session heartbeat (same settings)", "Server::listen + TcpProxyHandler, rustls"]
     }
     fn stub_components(&self) -> Vec<&'static str> {
         vec!["network: simulated TCP with 100-300 us latency", "application/target: harness (echo)", "reference: executable pool model M1 + ideal clauses"]
@@ -650,7 +676,7 @@ impl Check for C13 {
                 // that request: the pool keeps its lock for the whole pass)
                 obs.ticks.iter().any(|(_, snap, _, t_obs)| *t_obs <= t && snap.get(&id).copied().unwrap_or(false))
                     || obs.kills.iter().any(|(kt, kid)| *kid == id && *kt <= t)
-                    || (j.m1_exact && m1.reaped.get(&id).map(|k| k * obs.period_us <= t).unwrap_or(false))
+                    || (j.m1_exact && m1.reaped.get(&id).map(|tr| *tr <= t).unwrap_or(false))
             };
             let mut redials = 0u64;
             let mut first_redial: Option<String> = None;
@@ -706,10 +732,10 @@ impl Check for C13 {
         out
     }
     fn rule(&self) -> &'static str {
-        "one case = a history of 2-9 request groups (strictly sequential with the previous stream ended before the next request starts, bursts of up to 4 simultaneous requests, or mixed; durations 20 ms .. 4 intervals; idle gaps up to 5 intervals) under pool settings interval {1,5,30} s x timeout {2,3,10} intervals x minimum idle {0,1,2,3}, optional external session deaths, or the mid-pass style (requests arriving while the reaper is closing sessions whose shutdown does not complete); TLS connections counted on the simulated network, open sessions observed after every tick; step-by-step comparison with the executable pool model + the two property clauses judged on the observations; non-trivial = at least two requests succeeded; distinct = distinct (plan hash, poll-order fingerprint)"
+        "one case = a history of 2-9 request groups (strictly sequential with the previous stream ended before the next request starts, bursts of up to 4 simultaneous requests, or mixed; durations 20 ms .. 4 intervals; idle gaps up to 5 intervals) under pool settings interval {1,5,30} s x timeout {2,3,10} intervals x minimum idle {0,1,2,3}, optional external session deaths, optional manual cleanup_expired() passes, or the mid-pass style (requests arriving while the reaper is closing sessions whose shutdown does not complete); TLS connections counted on the simulated network, open sessions observed after every tick; step-by-step comparison with the executable pool model + the two property clauses judged on the observations; non-trivial = at least two requests succeeded; distinct = distinct (plan hash, poll-order fingerprint)"
     }
     fn real_components(&self) -> Vec<&'static str> {
-        vec!["Client::create_proxy_stream / create_stream / create_new_session", "SessionPool: get_idle_session, add_idle_session, reaper task", "Session heartbeat", "Server::listen + TcpProxyHandler, rustls"]
+        vec!["Client::create_proxy_stream / create_stream / create_new_session", "SessionPool: get_idle_session, add_idle_session, reaper task, cleanup_expired", "Session heartbeat", "Server::listen + TcpProxyHandler, rustls"]
     }
     fn stub_components(&self) -> Vec<&'static str> {
         vec!["network: simulated TCP (connect log = number of TLS connections)", "application/target: harness (echo)", "reference: executable pool model M1 + ideal clauses"]
